@@ -1,7 +1,7 @@
 """C38 The object size limit is applied exactly as configured (zero-count typing rule, K3, K4)."""
 import re
-from lib.facts import norm
-from lib.rules import G, arg_desc, who_calls, arg_path, agg_sites
+from lib.facts import norm, Site
+from lib.rules import G, arg_desc, who_calls, arg_path, agg_sites, fmt_path
 from lib.tables import enumerate_paths, describe
 
 META = dict(
@@ -106,6 +106,32 @@ def rule_wiring(ctx):
         if o.path().endswith('.max_object_size') and any(l == {'Some'} for l in edges.values()):
             ok = True
     ctx.check(ok, 'K3', 'rsync:max-size-only-if-Some', 'rsync --max-size only with a limit', 'rsync max-size not conditional on the limit')
+    # ... and ALWAYS with a limit: on the default-argument branch, once config.max_object_size is Some, every path to the
+    # end of the argument list pushes `--max-size=<limit>` (no further condition, e.g. a probe of `rsync -h`)
+    pushes = []
+    for s in rs.calls('re:Vec.*::push$'):
+        d = arg_desc(s, 1)
+        if '--max-size=' in d:
+            oo = rs.origin_of_operand(s.term['args'][1])
+            ok_arg = any('max_object_size@Some.0' in arg_desc(c.site, i) for c in oo.calls() for i in range(len(c.site.term['args'])))
+            ctx.check(ok_arg, 'prov', 'rsync:max-size-value', '--max-size carries the configured limit', '--max-size is built from `%s`' % d[:120], loc=s.loc())
+            pushes.append(s)
+    ctx.floor('K1', '--max-size push in RsyncCommand::new', len(pushes), 1)
+    n_edges = 0
+    for sbb in rs.switches():
+        o, edges = rs.switch_edges(sbb)
+        if not o.path().endswith('.max_object_size'):
+            continue
+        for tb, labs in edges.items():
+            if labs != {'Some'}:
+                continue
+            n_edges += 1
+            for r in rs.returns():
+                p = rs.path_avoiding(r.bb, avoid_nodes=[x.bb for x in pushes], start=tb)
+                ctx.check(p is None, 'K1', 'rsync:limit-set=>max-size-passed', 'with a limit every path passes --max-size to rsync',
+                          'RsyncCommand::new has a path on which a limit is configured but `--max-size` is not passed to rsync '
+                          '(objects fetched over rsync are then not limited)', loc=Site(rs, sbb).loc(), path=fmt_path(rs, p) if p else None)
+    ctx.floor('K1', 'Some edge of config.max_object_size in RsyncCommand::new', n_edges, 1)
 
 
 def rule_read(ctx):
@@ -201,4 +227,35 @@ def rule_zero_disables(ctx):
               loc='%s:%d' % (b.file, b.line))
 
 
-RULES = [rule_zero_disables, rule_option_order, rule_wiring, rule_read, rule_load_ta]
+
+def rule_ta_download(ctx):
+    """HTTPS trust anchor download (collector::rrdp::base::Run::load_ta): data is returned only when the limited reader
+    delivered the whole body; when read_to_end fails - LimitedDataRead reports LargeObject once the limit is crossed, or
+    the transfer breaks - nothing is returned (a body cut at the limit is not an object of at most L bytes)."""
+    b = ctx.body('collector::rrdp::base::Run::load_ta')
+    n_err = n_ok = 0
+    for p in enumerate_paths(b, ctx.facts):
+        if p.kind != 'return':
+            continue
+        rd = [set(l) for v, l in p.cond_map().items() if re.search(r'Read::read_to_end\(|Read::read_exact\(|io::copy\(', v)]
+        o = p.outcome or ''
+        if rd and rd[-1] <= {'Err', 'fail'}:
+            n_err += 1
+            ctx.check(o == 'Option::None()', 'K4', 'load_ta:read-failed=>None', 'a failed / over-limit download yields no certificate',
+                      'Run::load_ta returns `%s` although reading the body failed: when the response has no Content-Length and the '
+                      'body is larger than the limit, LimitedDataRead stops with LargeObject and the bytes read so far (cut at the '
+                      'limit) are handed on as the trust anchor certificate instead of refusing the object' % o,
+                      loc=p.ret_site.loc() if p.ret_site else None)
+        elif o.startswith('Option::Some('):
+            n_ok += 1
+            ctx.check(bool(rd) and rd[-1] <= {'Ok', 'pass'}, 'K4', 'load_ta:Some<=read-complete', 'data only after a complete read',
+                      'Run::load_ta returns data on a path that did not read the body to the end')
+    ctx.floor('K4', 'failed-read paths of rrdp load_ta', n_err, 1)
+    ctx.floor('K4', 'data-returning paths of rrdp load_ta', n_ok, 1)
+    for s in b.calls('collector::rrdp::http::LimitedDataRead::new'):
+        d = arg_desc(s, 2)
+        ctx.check('max_object_size' in d, 'prov', 'load_ta:reader-limit', 'the body is read through LimitedDataRead(limit = max_object_size)',
+                  'the TA body is read with limit `%s`' % d, loc=s.loc())
+    ctx.floor('K1', 'LimitedDataRead::new in rrdp load_ta', len(b.calls('collector::rrdp::http::LimitedDataRead::new')), 1)
+
+RULES = [rule_zero_disables, rule_option_order, rule_wiring, rule_read, rule_load_ta, rule_ta_download]
